@@ -21,7 +21,7 @@ import sys
 import time
 
 V = os.environ.get("VERIF_ROOT", "/verif")
-REPO = "/repo"
+REPO = os.environ.get("VERIF_REPO", "/repo")   # implementation under test
 BUILD = f"{V}/build"
 FORBIDDEN = re.compile(
     r"\b(Admitted|admit|Axiom|Axioms|Parameter|Parameters|Conjecture|Conjectures|"
